@@ -14,11 +14,11 @@ import (
 // holds the write lock / opens a reader exactly between litestream's steps X and Y" is chosen by the generator,
 // replayed exactly and shrunk like any other part of the case.
 
-// Phases lists the hook points litestream reports (the sync diagnostics phases plus three explicit points).
+// Phases lists the hook points litestream reports (the sync diagnostics phases plus four explicit points).
 var Phases = []string{
 	"ensure_wal", "verify_and_sync", "stat_wal", "verify", "sync_open_ltx", "sync_page_map", "sync_prepare_ltx",
 	"write_ltx_from_db", "write_ltx_from_wal", "close_ltx", "fsync_ltx", "rename_ltx", "sync_complete",
-	"checkpoint_if_needed", "checkpoint_lock", "checkpoint_read_wal_header", "checkpoint_copy_before", "checkpoint_exec",
+	"checkpoint_if_needed", "checkpoint_lock", "checkpoint_read_wal_header", "checkpoint_copy_before", "checkpoint_passive_barrier", "checkpoint_exec",
 	"checkpoint_bump_seq", "checkpoint_verify_restart", "checkpoint_snapshot_boundary_lock", "checkpoint_snapshot_boundary",
 	"snapshot_encode", "close_release",
 }
